@@ -38,7 +38,8 @@ type protoCase struct {
 	// encodings of OTHER values, whose decoding fails half-way: whatever scratch they leave behind must not show
 	Poison []string `json:"poison,omitempty"`
 	// C07 Scan: the records the input was written from (what Scan has to enumerate)
-	Recs []pRec `json:"recs,omitempty"`
+	Recs  []pRec    `json:"recs,omitempty"`
+	Alloc *allocVec `json:"alloc,omitempty"`
 }
 
 func parseProtoVec(c *Ctx, prop string, raw stdjson.RawMessage) (protoVec, bool) {
@@ -471,7 +472,9 @@ func c03CompositeMaps(c *Ctx) {
 				v.Field(1).Set(m)
 				v.Field(2).SetString("z")
 				k := protoCase{What: fmt.Sprintf("composite map: map[%v]%v with %d entries", kt, vt, n)}
-				fail := func(api, w, g string) { c.Diverge("C03", api+"(map with message keys or self-marshalling values)", w, g, "", k) }
+				fail := func(api, w, g string) {
+					c.Diverge("C03", api+"(map with message keys or self-marshalling values)", w, g, "", k)
+				}
 				var b []byte
 				var err error
 				size := -1
@@ -828,6 +831,22 @@ func c16Run(c *Ctx, k protoCase) {
 	want := treeString(l.treeOfAbstract(k.Shape, k.Val))
 	fail := func(w, g string) { c.Diverge("C16", "proto.MarshalTo", w, g, "", k) }
 	const guard = 24
+	// the zero value of the same type, encoded before anything has failed: a call that fails for want of room must not
+	// leave anything behind in the codec that shows in a later call (nil maps and empty slices are written from
+	// prebuilt pieces)
+	var zx any
+	var zref []byte
+	if k.What != "toplevel" {
+		zv := reflect.New(t)
+		zx = zv.Elem().Interface()
+		if k.Ptr {
+			zx = zv.Interface()
+		}
+		var zerr error
+		if pan := protect(func() { zref, zerr = proto.Marshal(zx) }); pan != "" || zerr != nil {
+			zx = nil
+		}
+	}
 	for L := 0; L <= size+3; L++ {
 		arr := make([]byte, L+guard)
 		for i := range arr {
@@ -870,6 +889,17 @@ func c16Run(c *Ctx, k protoCase) {
 			if !errors.Is(merr, io.ErrShortBuffer) {
 				fail(fmt.Sprintf("an error wrapping io.ErrShortBuffer (len(b)=%d < Size=%d)", L, size), merr.Error())
 				return
+			}
+			if zx != nil {
+				zbuf := make([]byte, len(zref)+8)
+				var zn int
+				var ze error
+				c.Eval(1)
+				if p := protect(func() { zn, ze = proto.MarshalTo(zbuf, zx) }); p != "" || ze != nil || !bytes.Equal(zbuf[:zn], zref) {
+					fail(fmt.Sprintf("the zero value of the type still encoded as %x after a call that failed for want of room (len(b)=%d)", zref, L),
+						fmt.Sprintf("%x err=%v %s", zbuf[:max(zn, 0)], ze, p))
+					return
+				}
 			}
 		}
 	}
@@ -1005,7 +1035,69 @@ func c07Scan(c *Ctx, k protoCase, recs []pRec) {
 	}
 }
 
+// c07Append (spec/WireAlloc.tla, kind "append"): a repeated field of r elements arriving one by one - nothing announces
+// how many - decoded with a quiet allocation meter (C07 runs its vectors one at a time): what is allocated, dead copies
+// of the growing destination included, stays within a constant factor of the input
+func c07Append(c *Ctx, v *allocVec) {
+	n := v.R * 6151 // the model's 0..13 stand for 0 .. 80 thousand elements
+	c.Nontrivial()
+	type tg struct {
+		name string
+		unit []byte // one element of field 1
+		dst  func() any
+		size int // bytes of memory per element
+	}
+	for _, t := range []tg{
+		{"[]uint64", []byte{0x08, 0x01}, func() any { return new(struct{ L []uint64 }) }, 8},
+		{"[]int32", []byte{0x08, 0x7f}, func() any { return new(struct{ L []int32 }) }, 4},
+		{"[]bool", []byte{0x08, 0x01}, func() any { return new(struct{ L []bool }) }, 1},
+		{"[]string", []byte{0x0a, 0x01, 'x'}, func() any { return new(struct{ L []string }) }, 16},
+		{"[]message", []byte{0x0a, 0x02, 0x08, 0x01}, func() any { return new(struct{ L []struct{ A int32 } }) }, 4},
+		{"[]float64(packed)", nil, func() any { return new(struct{ L []float64 }) }, 8},
+	} {
+		var in []byte
+		if t.unit == nil { // one packed occurrence
+			in = append([]byte{0x0a}, uvarintBytes(uint64(8*n))...)
+			in = append(in, make([]byte, 8*n)...)
+		} else {
+			in = bytes.Repeat(t.unit, n)
+		}
+		k := protoCase{What: fmt.Sprintf("repeated field of %d elements (%s)", n, t.name), Alloc: v}
+		dst := t.dst()
+		var err error
+		var pan string
+		c.Eval(1)
+		c.Case()
+		proto.Unmarshal(in[:min(len(in), 64)], t.dst()) // the codec is compiled outside the measurement
+		alloc := allocDuring(func() { pan = protect(func() { err = proto.Unmarshal(in, dst) }) })
+		if uint64(6*n*t.size+16*len(in)+64<<10) < alloc && pan == "" { // a process-wide meter: the repeated call counts
+			runtime.GC()
+			dst = t.dst()
+			alloc = min(alloc, allocDuring(func() { pan = protect(func() { err = proto.Unmarshal(in, dst) }) }))
+		}
+		// the elements themselves (n * size), at most a few times over for the copies made while growing
+		bound := uint64(6*n*t.size + 16*len(in) + 64<<10)
+		api := "proto.Unmarshal(long repeated field)"
+		switch {
+		case pan != "":
+			c.Diverge("C07", api, "no panic", pan, "", k)
+		case err != nil && n*len(t.unit) > 64:
+			c.Diverge("C07", api, "nil error", err.Error(), "", k)
+		case alloc > bound:
+			c.Diverge("C07", api, fmt.Sprintf("allocation within a constant factor of the %d bytes of input (<= %d)", len(in), bound),
+				fmt.Sprintf("%d bytes allocated for %d elements of %s", alloc, n, t.name), "", k)
+		}
+	}
+}
+
 func c07Vector(c *Ctx, raw stdjson.RawMessage) {
+	var av allocVec
+	if stdjson.Unmarshal(raw, &av) == nil && av.Kind != "" && av.Pre > 0 {
+		if av.Kind == "append" {
+			c07Append(c, &av)
+		}
+		return
+	}
 	var full struct {
 		Re map[string][]pRec `json:"re"`
 	}
@@ -1157,6 +1249,10 @@ func c07Replay(c *Ctx, raw stdjson.RawMessage) {
 		}
 		if len(k.Recs) > 0 {
 			c07Scan(c, k, k.Recs)
+			return
+		}
+		if k.Alloc != nil {
+			c07Append(c, k.Alloc)
 			return
 		}
 		c07Total(c, k)
